@@ -139,6 +139,33 @@ CHECKS = {
         note=TB + "C10: the theorem is for multinomial resampling and finite support; systematic resampling's unbiasedness is C12's count formula; rejuvenation kernels are assumed normalised (their invariance is C09).",
         technique="Lean 4 + Mathlib proof (finite-distribution monad, induction over pipelines) + differential correspondence",
         design="§3 C10"),
+    "C11": dict(
+        text="Lean theorems (any field, every parameter in the open domain, every continuation): flip_enum exact (value and derivative); REINFORCE "
+             "and measure-valued flip estimators unbiased; REINFORCE over any finite distribution; estimators affine in the continuation (tower "
+             "property); a mixed two-site composition unbiased with cross terms. Tie: expectation programs with 1-3 sites run on the real code with "
+             "the primitives' internal Bernoulli sampler replaced by an oracle that exhaustively explores every internal outcome (weights = the "
+             "probabilities actually used): weighted mean of value and tangent vs closed forms; per-outcome duals vs the Lean model; seeded "
+             "Monte-Carlo for programs whose continuations sample on their own; categorical/parallel enumeration, batched sites, pathwise identity.",
+        note=TB + "C11: reparameterised primitives = JAX's pathwise JVP (trusted); continuous score-function sites are checked by calibrated means only.",
+        technique="Lean 4 + Mathlib proof + differential correspondence with exhaustive enumeration of the estimators' internal randomness",
+        design="§3 C11"),
+    "C15": dict(
+        text="Partial. Lean theorem: for every straight-line deterministic program (const/add/sub/mul/neg/cond) and environment, the ADEV "
+             "continuation-passing interpreter with the identity (or any final) continuation equals the forward-mode fold. Tie: a corpus of "
+             "deterministic JAX programs (indexing, reductions, dot/transpose, int/bool/complex intermediates, casts, cond, scan/fori) over scalar, "
+             "array and pytree arguments: jvp_estimate / grad_estimate / estimate vs jax.jvp / jax.grad / f; random straight-line programs vs the "
+             "Lean interpreter.",
+        note=TB + "C15 (partial): primitive JVP rules, tangent shapes, float0 / symbolic-zero handling and dtype conversion are JAX runtime behaviour covered only by the corpus.",
+        technique="Lean 4 proof of the interpreter skeleton + differential corpus against jax.jvp / jax.grad",
+        design="§3 C15"),
+    "C17": dict(
+        text="Lean theorems: the ELBO draw equals log p(x) at the exact posterior (field identity); E_q[log p - log q] <= log sum p over finite "
+             "support (Gibbs, real logs); the optimiser returns n iterates, iterate i = i+1 ascent steps, each step params + lr*grad. Tie: "
+             "conjugate Gaussian targets, mean-field / full-covariance / structured score-function families on the real code: per-draw tightness, "
+             "mean ELBO and mean gradient vs closed forms, optimize_vi history vs the Lean optimiser on rational gradients.",
+        note=TB + "C17: unbiasedness of the gradient rests on C11; continuous expectations are compared statistically (CLT band z<5.5) with closed forms obtained from exact Gaussian integrals of quadratic integrands.",
+        technique="Lean 4 + Mathlib proof + differential correspondence on conjugate targets",
+        design="§3 C17"),
 }
 
 NOT_YET = "check not built yet in this session (planned, see DESIGN.md §3/§6); not claimed"
